@@ -1,7 +1,7 @@
 (* C09: the state inventory and (re)initialisation policy REGENERATED from /repo on this run. *)
 From Coq Require Import List NArith Bool Arith String.
 From RG.Ast Require Import Tree Walker WalkerProof WalkSpec WfCheck WalkPanic.
-From RG.Engine Require Import RunState Reentrant.
+From RG.Engine Require Import RunState Reentrant AnswerCache.
 From RGW Require Import Gen_AstSchema Gen_Walker Gen_WalkTags Gen_WalkState Gen_RunnerState Inst_Walker.
 Import ListNotations.
 Local Open Scope string_scope.
@@ -148,3 +148,27 @@ Proof. vm_compute. reflexivity. Qed.
 Definition gen_nil_policy : nil_state_policy := if String.eqb gen_nil_state_policy "fresh" then NilFresh else NilPooledEarlyRelease.
 Lemma nil_state_is_fresh : gen_nil_policy = NilFresh /\ gen_new_runner_state_allocates_all = true.
 Proof. vm_compute. auto. Qed.
+
+(* ---- what the engine keeps between runs (types by name, the importer's table, imported packages): every store of an answer
+   is reached only when the error that came with the answer is nil (or nothing can have failed) *)
+Definition cache_class_ok (c : string) : bool := existsb (String.eqb c) ["checked"; "total"; "param"; "table-copy"].
+Definition cache_store_policy : store_policy :=
+  if forallb (fun s => cache_class_ok (snd s)) gen_cache_stores then StoreChecked else StoreAlways.
+(* the stores of answers that come with an error: they are there, and they are classified `checked` *)
+Definition fallible_cache_sites : list string :=
+  ["engineState.FindType:state.typeByFQN"; "engineState.FindType:importer.depTypes"; "goImporter.Import:imp.state.AddCachedPackage()"].
+Definition cache_site_checked (site : string) : bool :=
+  let cs := map snd (filter (fun s => String.eqb (fst s) site) gen_cache_stores) in
+  negb (Nat.eqb (List.length cs) 0) && forallb (String.eqb "checked") cs.
+Lemma cache_stores_checked :
+  cache_store_policy = StoreChecked /\ forallb cache_site_checked fallible_cache_sites = true.
+Proof. vm_compute. split; reflexivity. Qed.
+
+Lemma answers_history_independent :
+  forall (key val err : Type) (key_eqb : key -> key -> bool), (forall a b, reflect (a = b) (key_eqb a b)) ->
+  forall (resolve : key -> val + err) (junk : val) (ks : list key),
+    fst (asks key val err key_eqb resolve junk cache_store_policy [] ks) = map resolve ks.
+Proof.
+  intros key val err key_eqb Hspec resolve junk ks.
+  rewrite (proj1 cache_stores_checked). apply checked_fresh_engine. exact Hspec.
+Qed.
